@@ -325,7 +325,7 @@ def build_arg(a):
             return '%s/%s' % (_addr_text(ver, val), _addr_text(ver, host))
         if form == 'bad':
             t = _addr_text(ver, val)
-            return ['%s/%d' % (t, w + 1 + p), t + '/', t + ('.1' if ver == 4 else ':1:2'), '', 'bad', t + '//%d' % p,
+            return ['%s/%d' % (t, w + 1 + p), t + '/', t + ('.1' if ver == 4 else ':x'), '', 'bad', t + '//%d' % p,
                     '%s/%s' % (t, _addr_text(ver, (1 << (w - 1)) - 2))][(val + p) % 7]
         if form == 'badint':
             return [(1 << 128) + val, -1 - val][(val + p) % 2]
